@@ -79,8 +79,9 @@ void slu_mt_verif_event(int kind, int pnum, long a, long b, long c) {
 
 /* ---- allocation fault injection (library built with -include vf_alloc.h; unused otherwise) ---- */
 #include <malloc.h>
-static long vf_count = 0, vf_failat = 0, vf_failed = 0; static char vf_first_fail_site[128] = "-";
+static long vf_count = 0, vf_failat = 0, vf_failed = 0; static int vf_active = 0; static char vf_first_fail_site[128] = "-";
 void *vf_malloc(size_t size, const char *file, int line) {
+    if (!vf_active) return malloc(size);     /* only requests issued during a driver call are counted / failed */
     long k = __atomic_add_fetch(&vf_count, 1, __ATOMIC_SEQ_CST);
     if (vf_failat > 0 && k >= vf_failat) {
         if (__atomic_add_fetch(&vf_failed, 1, __ATOMIC_SEQ_CST) == 1) { const char *b = strrchr(file, '/'); snprintf(vf_first_fail_site, sizeof vf_first_fail_site, "%s:%d", b ? b + 1 : file, line); }
@@ -254,8 +255,9 @@ int main(int argc, char **argv) {
         else if (!strcmp(tok, "gssv")) {
             int ai = rd_int(), bi = rd_int(); int_t nprocs = rd_int(); matslot *a = &A_[ai]; dnslot *b = &B_[bi];
             ensure_perm(a->n); free_LU(); int_t info = -999; int t0 = count_threads_once();
-            xerbla_calls = 0; evcount = 0;
+            xerbla_calls = 0; evcount = 0; vf_count = 0; vf_failed = 0; vf_active = 1;
             PP(gssv)(nprocs, &a->M, perm_c, perm_r, &L, &U, &b->M, &info);
+            vf_active = 0;
             int t1 = count_threads_settled(t0);
             fprintf(out, "op gssv\ninfo %ld\nxerbla %d %s %d\nthreads %d %d\n", (long)info, xerbla_calls, xerbla_calls ? xerbla_name : "-", xerbla_arg, t0, t1);
             dump_events();
@@ -288,8 +290,9 @@ int main(int argc, char **argv) {
             real_t rpg = -1, rcond = -1; real_t *ferr = malloc(sizeof(real_t) * (b->nrhs + 1)), *berr = malloc(sizeof(real_t) * (b->nrhs + 1));
             for (int i = 0; i <= b->nrhs; i++) ferr[i] = berr[i] = -1;
             superlu_memusage_t mu; memset(&mu, 0, sizeof mu); int_t info = -999; xerbla_calls = 0; int t0 = count_threads_once();
-            equed_t equed_in = equed; evcount = 0;
+            equed_t equed_in = equed; evcount = 0; vf_count = 0; vf_failed = 0; vf_active = 1;
             PP(gssvx)(nprocs, &opts, &a->M, perm_c, perm_r, &equed, Rv, Cv, &L, &U, &b->M, &X, &rpg, &rcond, ferr, berr, &mu, &info);
+            vf_active = 0;
             int t1 = count_threads_settled(t0);
             fprintf(out, "op gssvx\ninfo %ld\nxerbla %d %s %d\nthreads %d %d\n", (long)info, xerbla_calls, xerbla_calls ? xerbla_name : "-", xerbla_arg, t0, t1);
             fprintf(out, "equed %d %d\nusepr_after %d\n", (int)equed_in, (int)equed, (int)opts.usepr);
